@@ -22,8 +22,33 @@ import (
 	"time"
 
 	"github.com/mk6i/mkdb/engine"
+	"github.com/mk6i/mkdb/sql"
 	"github.com/mk6i/mkdb/storage"
 )
+
+// direct runs a statement the way cmd/csvimport does: parsed, then handed to the engine's Evaluate function with the
+// session's store, without going through Session.ExecQuery. The lock discipline must hold on this path too.
+func direct(sess *engine.Session, q string) error {
+	ts := sql.NewTokenScanner(strings.NewReader(q))
+	tl := sql.TokenList{}
+	for ts.Next() {
+		tl.Add(ts.Cur())
+	}
+	p := sql.Parser{TokenList: tl}
+	stmt, err := p.Parse()
+	if err != nil {
+		return err
+	}
+	switch st := stmt.(type) {
+	case sql.InsertStatement:
+		_, err = engine.EvaluateInsert(st, sess.RelationService)
+	case sql.Select:
+		_, _, err = engine.EvaluateSelect(st, sess.RelationService)
+	default:
+		err = sess.ExecQuery(q)
+	}
+	return err
+}
 
 type event struct {
 	Seq int    `json:"seq"`
@@ -224,7 +249,15 @@ func main() {
 			if !free {
 				mark("begin", k)
 			}
-			err := sess.ExecQuery(q)
+			var err error
+			if (k == "insert" || k == "select") && rng.Intn(2) == 0 {
+				err = direct(sess, q)
+				mu.Lock()
+				stats["stmt-direct"]++
+				mu.Unlock()
+			} else {
+				err = sess.ExecQuery(q)
+			}
 			if !free {
 				mark("end", k)
 			}
